@@ -10,8 +10,10 @@ Two levels:
             data = their own final data) in all permutations (<= 4 items) / several permutations (beyond) and three
             groupings (left fold; pairs merged at a second observer first; the tail merged at the second observer first);
             knowledge (executed / failed call ids, unused value ids, executed canon ids carried by the inputs) must be equal,
-            stream-free scripts must give traces identical up to the sender inside pending states, scripts with streams the
-            same multiset of states up to senders / generation numbers / fold lores; no order may fail where another merges."""
+            stream-free scripts must give traces identical up to the sender inside pending states (when a grouping reaches a
+            participant through the second observer, whose own pending requests travel with its data, the executed / failed
+            states in trace order), scripts with streams the same multiset of states up to senders / generation numbers /
+            fold lores; no order may fail where another merges."""
 import airgen
 import exec_common
 import merge_common
@@ -21,8 +23,8 @@ import vlib
 PID = "C08"
 MODEL_TARGETS = ["model/MergeCases.vo"]
 HARNESS_BINS = ["handler", "merge08"]
-RULE = ("handler level: as for C07 (kind 1: all pairs of the 14 call / 4 canon / 3 ap states, third state random in quick and "
-        "exhaustive in thorough; kind 2: one trace as previous and as current data; kind 3: two traces of one script at "
+RULE = ("handler level: as for C07 (kind 1: pairs of the 14 call / 4 canon / 3 ap states: quick a random half of the call pairs with a random third "
+        "state, thorough all triples; kind 2: one trace as previous and as current data; kind 3: two traces of one script at "
         "different progress in both orders, then the two merges merged); evaluations = rounds of the real TraceHandler; "
         "history level: a case is one honest history (airgen scripts over 3-4 peers: par, xor, scalar and stream folds, "
         "canon, recursive stream folds, failing services; schedules with duplication / re-delivery / batched results) with 6 "
@@ -98,11 +100,11 @@ def gen_cases(rng, tier, escalate=False):
     for c in mergegen.gen_cases(rng, tier, escalate):
         c["level"] = "handler"
         cases.append(c)
-    n_hist = {"quick": 260, "thorough": 6000}[tier] * (3 if escalate else 1)
+    n_hist = {"quick": 260, "thorough": 4000}[tier] * (3 if escalate else 1)
     for _ in range(n_hist):
         cases.append(history_case(rng, history_profile(rng), "airgen"))
     # a separate stream of recursive stream folds (known finding stream-fold-cursor-hole)
-    for _ in range({"quick": 40, "thorough": 1000}[tier]):
+    for _ in range({"quick": 40, "thorough": 600}[tier]):
         prof = history_profile(rng, recursive=True)
         c = history_case(rng, prof, "airgen/recursive-stream-folds")
         cases.append(c)
